@@ -756,8 +756,10 @@ def cell_level(chk: Check, cellmap: Dict[str, Tuple[str, Any]], programs: Dict[A
                 else:
                     chk.fault(f"could not extract the TIMESTAMP variant of the Date DataFrame program: {prog_ts.error!r}")
             bad: Dict[str, Tuple[Any, str]] = {}
+            pyres = {s: native_cell(cellmap, tname, s) for s in strs}
+            sqlres = dict(zip(strs, sql))
             for s, r in zip(strs, sql):
-                p = native_cell(cellmap, tname, s)
+                p = pyres[s]
                 d = direction(p, (r[0], None))
                 if d is not None:
                     key = f"{tname}::{kind}::{d}::{K.classify(tname, s)}"
@@ -775,13 +777,13 @@ def cell_level(chk: Check, cellmap: Dict[str, Tuple[str, Any]], programs: Dict[A
                    "bounded-exhaustive-native", confirm)
             # the cell-level verdicts are the API-level verdicts: every disagreement class representative and a sample of the
             # agreeing strings go through the real validate_dataset / run() load step
-            agree = [s for s, r in zip(strs, sql) if direction(native_cell(cellmap, tname, s), (r[0], None)) is None]
+            agree = [s for s, r in zip(strs, sql) if direction(pyres[s], (r[0], None)) is None]
             rs = random.Random(chk.seed + len(strs))
             sample = rs.sample(agree, min(len(agree), 40 if chk.tier == "quick" else 200)) + [s for s, _w in bad.values()]
             res = api_many(pool, tname, kind, sample)
             for s, (v0, r0, vs, rs_) in zip(sample, res):
-                pc = native_cell(cellmap, tname, s)[0]
-                sc = dict(zip(strs, sql))[s][0]
+                pc = pyres[s][0]
+                sc = sqlres[s][0]
                 if (v0, r0) != (pc, sc):
                     chk.fault(f"cell-level and API-level verdicts differ on {s!r} ({tname}/{kind}): cell ({pc}, {sc}), "
                               f"API (validate_dataset {vs}; run() {rs_})")
